@@ -873,8 +873,15 @@ fn check_reads<'a>(ctx: &mut Ctx, ts: &'a [Term<'a>], w: &World, hist: &dyn Fn()
                         // The tolerance exists for means that are not f32 numbers. Where the mean IS an f32
                         // number (equal values on both ends, small integers, subnormals ...) the read must
                         // be that number: "the mean of x and x is x".
-                        if reference as f64 == mean64 {
-                            ctx.rep.tally(if a.is_subnormal() || b.is_subnormal() { "sem_state_mean_representable_subnormal-operand" } else { "sem_state_mean_representable" });
+                        // ... Not asserted where halving an operand is itself inexact (operands or mean below
+                        // 2*MIN_POSITIVE): there `a/2 + b/2` and `(a + b)/2` legitimately differ by one unit of the
+                        // subnormal spacing, and "halve before adding so that large states cannot overflow" is a refactor
+                        // a maintainer may make (an independent author submitted exactly that as a property-preserving
+                        // change, seeded/benign/C03-D; the 2-ulp clause below still applies there).
+                        let tiny = |v: f32| v != 0.0 && v.abs() < 2.0 * f32::MIN_POSITIVE;
+                        if reference as f64 == mean64 && (tiny(a) || tiny(b) || tiny(reference)) { ctx.rep.tally("sem_state_mean_representable_but_tiny_not_asserted"); }
+                        if reference as f64 == mean64 && !(tiny(a) || tiny(b) || tiny(reference)) {
+                            ctx.rep.tally("sem_state_mean_representable");
                             if !same(o, reference) {
                                 inexact_but_representable = true;
                             }
@@ -1517,7 +1524,6 @@ fn main() {
         }
         rep.floor("follow_update_expected_err", 500);
         rep.floor("sem_state_mean_representable", 1000);
-        rep.floor("sem_state_mean_representable_subnormal-operand", 1000);
         rep.floor("sem_cases_completed", fl(20_000, 3_000_000));
     }
     rep.finish(&args);
